@@ -32,6 +32,9 @@ M = [
     'e:LLa:Mb:Mc:Md', 'e:LLa:Mb:Mc:Md:Me', 'd:La:Mb:Mc', 'c:LMa:Mb', 'Mc:LLa:Mb',
     # box-diamond patterns whose proofs run close to the projected world maximum
     'Lc:LKMaLc', 'Mb:LMa:Ma:b', 'LLc:LKMaLc', 'Mb:LMa:b',
+    # a proof that ends with exactly the projected number of worlds and needs a reflexive arrow
+    # at a late world (see also families/boundary.py)
+    'c:LMa:MKLdNd:Me',
 ]
 
 Q = [
